@@ -495,6 +495,7 @@ int main(int argc, char **argv) {
   Harness h;
   h.property_id = "C14";
   h.run = run;
+  h.shrink_budget = 300;
   h.base = 8;
   h.per_size = 1;
   h.setup = [] { g_scr.init(); };
